@@ -13,7 +13,7 @@ import (
 
 // FaultEv is one unrequested loss of the client's session.
 type FaultEv struct {
-	Kind    string `json:"kind"`     // srv-finish, srv-fail, fin, rst, half, garbage, nonenv, oversized, restart, srv-close
+	Kind    string `json:"kind"`     // srv-finish, srv-fail, fin, rst, half, garbage, nonenv, oversized, restart, srv-close, outage (the server is down for 8 s)
 	Moment  int    `json:"moment"`   // 0 idle, 1 while the client is sending, 2 while the server is pushing, 3 during the re-establishment after the previous fault, 4 while a client send is stuck in the middle of its write (the server has stopped reading)
 	QuietMs int    `json:"quiet_ms"` // time between the fault and the recovery probe
 }
@@ -25,7 +25,7 @@ type PlanC19 struct {
 	Faults []FaultEv `json:"faults"`
 }
 
-var c19Kinds = []string{"srv-finish", "srv-fail", "fin", "rst", "half", "garbage", "nonenv", "oversized", "restart", "srv-close"}
+var c19Kinds = []string{"srv-finish", "srv-fail", "fin", "rst", "half", "garbage", "nonenv", "oversized", "restart", "srv-close", "outage"}
 
 func genC19(t *simrt.Tape, tier string) interface{} {
 	p := &PlanC19{}
@@ -240,6 +240,14 @@ func runC19(w *World, pi interface{}) {
 				cancel()
 				return
 			}
+		case "outage":
+			// the server is gone for a while: the idle client's own listener keeps trying in the background
+			f.Close()
+			time.Sleep(8 * time.Second)
+			if !startServer() {
+				cancel()
+				return
+			}
 		}
 		cancel()
 		bg.WaitFor(time.Minute)
@@ -333,7 +341,7 @@ func init() {
 		PanicRule:    "C19.panic",
 		LivelockRule: "C19.listener-busy-loop",
 		Rule: "plans = (real high-level Client with background listener, reconnect loop and back-off on the fake clock, against a real Server over tcp/tcp+tls/ws/wss/in-process; 1-3 rounds of an unrequested loss: server-side finish or fail, server-side close, FIN, RST, half-close, " +
-			"undecodable bytes, JSON that is no envelope, an envelope above the client's read limit, server restart; landing while idle, while the client is sending, while the server is pushing, during the re-establishment after the previous loss, or while a client send is stuck in the middle of its write behind a server that stopped reading; quiet period 0-7 s); " +
+			"undecodable bytes, JSON that is no envelope, an envelope above the client's read limit, server restart, an 8 s outage of the server; landing while idle, while the client is sending, while the server is pushing, during the re-establishment after the previous loss, or while a client send is stuck in the middle of its write behind a server that stopped reading; quiet period 0-7 s); " +
 			"oracle once faults stop: SendMessage succeeds within 120 s on a session the server serves, a pushed message reaches the registered handler, every successful send was received, no busy loop (steps at one simulated instant), no panic; " +
 			"non-trivial = first session established; distinct = distinct (plan JSON, event-log hash)",
 	})
